@@ -54,27 +54,35 @@ impl<E> Drop for RawOwned<E> {
     }
 }
 
-/// Replacement-iterator wrapper = simulated user code with faults F3 / F4.
+/// Replacement-iterator wrapper = simulated user code with faults F3 / F4. The k-th call the
+/// library makes to it - `next()`, or `len()` / `size_hint()` - may panic (F3); `len()` may lie (F4).
 pub struct FaultIter<I> {
     inner: I,
-    calls: u32,
+    calls: std::cell::Cell<u32>,
     panic_at: u32,
     lie: i32,
 }
 impl<I> FaultIter<I> {
     pub fn new(inner: I, panic_at: u32, lie: i32) -> Self {
-        FaultIter { inner, calls: 0, panic_at, lie }
+        FaultIter { inner, calls: std::cell::Cell::new(0), panic_at, lie }
+    }
+    #[inline]
+    fn call(&self, what: &'static str) {
+        if !simcore::registry::in_lib() {
+            return;
+        }
+        self.calls.set(self.calls.get() + 1);
+        simcore::faultpoints::note_next();
+        if self.panic_at != 0 && self.calls.get() == self.panic_at && !std::thread::panicking() {
+            simcore::faultpoints::note_next_fired();
+            std::panic::panic_any(simcore::registry::Injected(what));
+        }
     }
 }
 impl<I: ExactSizeIterator> Iterator for FaultIter<I> {
     type Item = I::Item;
     fn next(&mut self) -> Option<I::Item> {
-        self.calls += 1;
-        simcore::faultpoints::note_next();
-        if self.panic_at != 0 && self.calls == self.panic_at && simcore::registry::in_lib() && !std::thread::panicking() {
-            simcore::faultpoints::note_next_fired();
-            std::panic::panic_any(simcore::registry::Injected("next"));
-        }
+        self.call("next");
         self.inner.next()
     }
     fn size_hint(&self) -> (usize, Option<usize>) {
@@ -84,6 +92,7 @@ impl<I: ExactSizeIterator> Iterator for FaultIter<I> {
 }
 impl<I: ExactSizeIterator> ExactSizeIterator for FaultIter<I> {
     fn len(&self) -> usize {
+        self.call("len");
         let n = self.inner.len() as i64 + self.lie as i64;
         if self.lie != 0 {
             simcore::faultpoints::note_len_lie();
